@@ -10,6 +10,7 @@ ops:
 * `bech <str-hex>`                                  `sdk.AccAddressFromBech32`       → `ok:<bytes-hex>` | `err`
 * `fold <a-hex> <b-hex>`                            `strings.EqualFold`             → `true` | `false`
 * `call <msg> <gov-hex> <auth-hex> <payloadOk> <chain> <govOk> <non-empty list fields>`   one routed message → the stage it ends in
+* `hcall <type> <msg> <gov-hex> <auth-hex> <chain> <govOk> <non-empty list fields>`   the method serving the message on a value of that concrete type, called directly
 * `casreset`                                        empty scratch stores
 * `cas <gov-hex> <auth-hex> <space:key:old:new>…`   one MsgUpdateStore through its branch
 * `prop <gov-hex> m <auth-hex> <entry>… m …`        a passed proposal with several MsgUpdateStore messages
@@ -93,6 +94,18 @@ def step (st : St) (line : String) : St × String :=
         | (.payload, _) => "rejected:payload"
         | (.handler, (.err, 0)) => "rejected:signer"
         | (.handler, _) => "past-guard")
+    | none, _, _ => (st, "unknown-message")
+    | _, _, _ => (st, "bad-op")
+  | ["hcall", T, msg, govH, authH, chain, govOk, lists] =>
+    -- handler level: the method serving `msg` on a value of concrete type `T`, called directly (no ValidateBasic stage)
+    match methodOf C16Sem.services msg, unhexS govH, unhexS authH with
+    | some m, some gov, some auth =>
+      let env := mkEnv st.cfg gov (if lists == "-" then [] else lists.splitOn ",") (govOk == "1")
+      let routeOk := C16Sem.routes.contains chain
+      let r := exec prog env auth (world routeOk) 4 T m 0
+      (st, match r with
+        | (.err, 0) => if needsRoute prog T m && !routeOk then "rejected:no-route" else "rejected:signer"
+        | _ => "past-guard")
     | none, _, _ => (st, "unknown-message")
     | _, _, _ => (st, "bad-op")
   | "cas" :: govH :: authH :: ups =>
